@@ -11,7 +11,7 @@ import (
 
 func init() {
 	streams["ARITH"] = streamArith
-	streamRules["ARITH"] = "exhaustive grids of the inclusion/square arithmetic helpers compared by block digests (one op = one block of consecutive arguments); non-trivial = distinct block or single-argument op; Go-side oracle re-checks the laws of C15 against an independent reference on a sub-grid"
+	streamRules["ARITH"] = "exhaustive grids of the inclusion/square arithmetic helpers compared by block digests (one op = one block of consecutive arguments); non-trivial = distinct block or single-argument op; Go-side oracle re-checks the laws of C15 against an independent reference on a sub-grid Added: pure-function history (random order, repeated arguments, held results re-examined)."
 	streams["ARITHLEN"] = streamArithLen
 	streamRules["ARITHLEN"] = "exhaustive grids of CompactSharesNeeded / SparseSharesNeeded(+WithSigner) / AvailableBytesFrom* over all lengths up to the tier bound, block digests; Go-side oracle checks needed(available n)=n and needed(available n + 1)=n+1"
 }
